@@ -2,12 +2,18 @@ package main
 
 import (
 	"fmt"
+	"regexp"
 	"strings"
 
 	"github.com/ohler55/ojg/jp"
 )
 
 var keyPieces = []string{"a", "b", "key", " ", "'", "\"", "\\", "\n", "\t", "\x01", "\x7f", ".", "[", "]", "*", "$", "@", "?", "(", ")", "é", "€", "😀", " ", "0", "-", "1a", "", "true", "null"}
+
+func init() {
+	// invisible and non-printable runes, inside and outside the BMP
+	keyPieces = append(keyPieces, "\u200b", "\u00a0", "\u0085", "\U000E0001", "\U000E0001 x", "\U0010FFFF", "\ufeff", "\u2028")
+}
 
 func genKey(r *Rng) string {
 	n := 1 + r.Intn(3)
@@ -116,6 +122,28 @@ func suiteText(tier string, seed uint64, model string) *Report {
 		d := genTree(r, 1+r.Intn(3))
 		ecs = append(ecs, ec{e, d})
 		reqs = append(reqs, "match\t"+e.Sexp()+"\t"+Show(d))
+	}
+	// every nesting of two arithmetic operators, on both sides, with operands for which the two
+	// groupings differ (integer division, subtraction)
+	arith := []string{"add", "sub", "mul", "div"}
+	cst := func(v any) *Eqn { return &Eqn{Kind: "v", Const: v} }
+	for _, o1 := range arith {
+		for _, o2 := range arith {
+			for _, ops := range [][3]any{{int64(3), int64(7), int64(2)}, {int64(9), int64(4), int64(3)}, {2.5, int64(7), int64(2)}, {int64(8), int64(3), 1.5}} {
+				a, b, c := cst(ops[0]), cst(ops[1]), cst(ops[2])
+				right := &Eqn{Kind: "bin", Op: o1, A: a, B: &Eqn{Kind: "bin", Op: o2, A: b, B: c}}
+				left := &Eqn{Kind: "bin", Op: o2, A: &Eqn{Kind: "bin", Op: o1, A: a, B: b}, B: c}
+				for _, shape := range []*Eqn{right, left} {
+					for _, k := range []any{int64(9), int64(10), int64(0), int64(1), 10.5, int64(-1), int64(12)} {
+						for _, cmp := range []string{"eq", "gt"} {
+							e := &Eqn{Kind: "bin", Op: cmp, A: shape, B: cst(k)}
+							ecs = append(ecs, ec{e, map[string]any{"a": int64(1)}})
+							reqs = append(reqs, "match\t"+e.Sexp()+"\t"+Show(map[string]any{"a": int64(1)}))
+						}
+					}
+				}
+			}
+		}
 	}
 	ans, err := RunModel(model, append(sreqs, reqs...))
 	if err != nil {
@@ -256,6 +284,42 @@ func suiteText(tier string, seed uint64, model string) *Report {
 		}
 		if i%2999 == 0 && len(rep.Samples) < 16 {
 			rep.Samples = append(rep.Samples, e.String())
+		}
+	}
+	// regular expression constants (outside the Coq model): the text must read back, print
+	// identically and match the same strings as the original equation
+	rxs := []string{"^[A-Z]:\\\\", "a\\/b", "x$", "\\\\\\\\", "a|b", "\\d+", "^$", "[/]", "\\\\x$", "a\\\\", "\\\\/", "(ab)+c?", "\\.", " ", "'", "\""}
+	subjects := []any{"C:\\", "a/b", "x", "\\\\", "b", "42", "", "/", "\\x", "a\\", "\\/", "ababc", ".", " ", "'", "\"", int64(3), nil}
+	for _, src := range rxs {
+		rx, err := regexp.Compile(src)
+		if err != nil {
+			continue
+		}
+		for _, mk := range []func(l, r *jp.Equation) *jp.Equation{jp.Regex, jp.Match, jp.Search} {
+			e := mk(jp.Get(jp.A().C("a")), jp.ConstRegex(rx))
+			text := e.Filter().String()
+			rep.Evaluations++
+			rep.Count("regex-equation")
+			out := safe(func() string {
+				f, err := jp.NewFilter(text)
+				if err != nil {
+					return "E " + err.Error()
+				}
+				if f.String() != text {
+					return "P " + f.String()
+				}
+				var sb strings.Builder
+				for _, sub := range subjects {
+					d := map[string]any{"a": sub}
+					if f.Match(d) != e.Filter().Match(d) {
+						sb.WriteString(fmt.Sprintf("differs on %q;", sub))
+					}
+				}
+				return "ok " + sb.String()
+			})
+			if out != "ok " {
+				rep.Add(Disagreement{Case: src, Where: "Filter.String (regex)", Kind: "impl-law:equation-roundtrip", Impl: out, Spec: "reads back, prints identically, matches the same strings", Detail: text})
+			}
 		}
 	}
 	rep.Distinct = len(distinct)
